@@ -28,13 +28,14 @@ impl SnmpRelativeOid<'_> {
     pub fn normalize<'a>(&self, oid: &SnmpOid) -> SnmpOid<'a> {
         // Number of subelements
         let rel_si = SnmpRelativeOid::subelements(self.0);
+        // The base may be empty when received from the wire
+        let base = oid.0.get(1..).unwrap_or_default();
         // Number of subelements in base. First octet holds 2 subidentifiers.
-        let base_si = SnmpRelativeOid::subelements(&oid.0[1..]) + 2;
+        let base_si = SnmpRelativeOid::subelements(base) + 2;
         //
         if rel_si < base_si - 2 {
-            let offset = SnmpRelativeOid::find_subelement(&oid.0[1..], base_si - rel_si - 2)
-                .unwrap_or(0)
-                + 1;
+            let offset =
+                SnmpRelativeOid::find_subelement(base, base_si - rel_si - 2).unwrap_or(0) + 1;
             let mut r = Vec::with_capacity(oid.0.len() + self.0.len());
             r.extend_from_slice(&oid.0[..offset]);
             r.extend_from_slice(self.0);
@@ -42,11 +43,18 @@ impl SnmpRelativeOid<'_> {
         } else {
             // Replace fully
             // First value is collapsed to one
-            let mut r = Vec::with_capacity(self.0.len() - 1);
-            // Collapse first two values into one octet
-            r.push(self.0[0] * 40 + self.0[1]);
-            // Push others
-            r.extend_from_slice(&self.0[2..]);
+            let mut r = Vec::with_capacity(self.0.len());
+            match self.0 {
+                [first, second, rest @ ..] => {
+                    // Collapse first two values into one octet,
+                    // malformed ones must not overflow
+                    r.push(first.wrapping_mul(40).wrapping_add(*second));
+                    // Push others
+                    r.extend_from_slice(rest);
+                }
+                // Too short to carry the two leading values
+                _ => r.extend_from_slice(self.0),
+            }
             SnmpOid::from(r)
         }
     }
